@@ -338,7 +338,7 @@ module masa
        abstract interface
          function funct(x) bind(C)
          import
-	 real(c_double), intent(in) :: x
+	 real(c_double), value :: x
 	 real(c_double) :: funct
          end function
        end interface
@@ -364,7 +364,7 @@ module masa
        abstract interface
          function funct(x) bind(C)
          import
-	 real(c_double), intent(in) :: x
+	 real(c_double), value :: x
 	 real(c_double) :: funct
          end function
        end interface
